@@ -145,6 +145,17 @@ def _one(p):
     return best, len(p['events']) + 1, err, r['distinct'], r['generated'], (out[out.find('Error:'):][:1500] if err and err != 'timeout' else '')
 
 
+def _ends(lst, k):
+    """k elements of a list sorted by length: alternately the shortest and the longest ones."""
+    lst = list(lst)
+    out = []
+    while lst and len(out) < k:
+        out.append(lst.pop(0))
+        if lst and len(out) < k:
+            out.append(lst.pop())
+    return out
+
+
 def conformance(ctx, executed, limit=40):
     todo = []
     for sc, r, v in executed:
@@ -160,7 +171,7 @@ def conformance(ctx, executed, limit=40):
     b = [p for p in todo if set(p['kinds'].values()) == {'call'} and not p.get('shutdown')]
     nc = min(len(c), limit // 4)
     na = min(len(a), max((limit - nc) // 2, limit - nc - len(b)))
-    todo = c[:nc] + a[:na] + b[:limit - nc - na]
+    todo = _ends(c, nc) + _ends(a, na) + _ends(b, limit - nc - na)
     acc = und = 0
     drift = []
     with _TPE(8) as ex:
